@@ -112,7 +112,7 @@ theorem wininv_reach (env : Env) (t0 : Nat) (c : Cfg) (h : Reach env t0 c) :
     WinInv t0 ⟨c.rw, c.lastPass⟩ c.clock c.log := by
   induction h with
   | init =>
-    exact ⟨0, by simpa [Cfg.init, logBucket] using rep_init t0, by simp [Cfg.init, RW.init], by simp [Cfg.init]⟩
+    exact winInvG_init nBuckets intervalNs (by decide) (by decide) t0
   | tick c dt _ ih =>
     obtain ⟨cur, hr, hl, ht⟩ := ih
     exact ⟨cur, hr, by simp at hl ⊢; omega, by simp; omega⟩
